@@ -407,7 +407,7 @@ def program_source(ops, watch=None, tail=""):
         if watch and op.get("out") == watch:
             lines.append(f"print('{watch} at entry :', repr({watch}))")
     if watch:
-        lines.append(f"print('{watch} afterwards:', repr({watch}))")
+        lines.append(f"print('{watch} afterwards:', repr(globals().get('{watch}')))")
     if tail:
         lines.append(tail)
     return "\n".join(lines) + "\n"
@@ -498,13 +498,13 @@ class Runner:
         if not self.checks:
             return
         n = len(self.pool)
-        if self.full_all or self.step_no % 10 == 0:
+        if self.full_all or self.step_no % 20 == 0:
             full = set(self.pool)
         else:
             full = set(touched)
-            for k in range(8):
+            for k in range(4):
                 if n:
-                    full.add(self.pool[(self.step_no * 8 + k) % n])
+                    full.add(self.pool[(self.step_no * 4 + k) % n])
         for name in self.pool:
             m = self.meta[name]
             s = self.env[name]
@@ -1342,7 +1342,9 @@ def shrink_failure(pristine, prev, records, kind, budget):
         idx = ddmin(list(range(len(pre))), lambda c: fails([pre[k] for k in c], records), deadline)
         pre = [pre[k] for k in idx]
     idx = ddmin(list(range(len(records))), lambda c: fails(pre, prune([records[k] for k in c])), deadline)
-    return pre, prune([records[k] for k in idx]), True
+    ops = prune([records[k] for k in idx])
+    f, _ = run_pre_then(pristine, pre, ops, True)
+    return pre, ops, (f if f is not None and f[0] == kind else True)
 
 
 def shrink_dependence(pristine, prev, records, i, alone_fp, budget):
@@ -1443,6 +1445,9 @@ def _run(ctx, pristine, n_hist, n_ops, depth, n_slices, shrink_budget, model_his
         if failure is not None:
             reported += 1
             pre, ops, ok = shrink_failure(pristine, prev, records, failure[0], shrink_budget)
+            original = failure
+            if isinstance(ok, tuple):
+                failure, ok = ok, True       # the failure as it shows in the minimal history
             watch = failure[2].get("schema") or failure[2].get("arg")
             src = program_source(list(pre) + list(ops), watch=watch)
             ctx.violation(
@@ -1451,6 +1456,7 @@ def _run(ctx, pristine, n_hist, n_ops, depth, n_slices, shrink_budget, model_his
                  "expected": "every pooled schema keeps repr, props, verdicts and generated value; arguments unchanged; "
                              "replays give equal results",
                  "operations": len(pre) + len(ops), "original_operations": len(records),
+                 "observed_in_original_history": _describe(original),
                  "reproduced_in_pristine_process": ok,
                  "theorem_or_suite": "C07 history oracle (history_frame / args_unchanged / replay_deterministic)"})
             prev += records
@@ -1544,7 +1550,7 @@ def _run(ctx, pristine, n_hist, n_ops, depth, n_slices, shrink_budget, model_his
              "and evaluated by the model (pool size, changed set, identity of indexed sub-schemas). "
              "non-trivial = caller mutations + operations that raised." % (
                  n_ops, "" if not ctx.thorough() else "; in thorough the full snapshot is taken for the operation's "
-                 "arguments, a rotating sample of 8 and for all every 10th step, repr+props for all every step"),
+                 "arguments, a rotating sample of 4 and for all every 20th step, repr+props for all every step"),
         samples=samples,
         correspondence={"suite": "store-model histories", "cases": len(cases), "mismatches": len(bad),
                         "unmodelled": totals["unmodelled"],
